@@ -249,6 +249,7 @@ def _case(draw):
     return {
         'templates': templates, 'variants': variants, 'instances': instances,
         'deduplicate': draw(st.sampled_from([True, True, False])),
+        'named_before': draw(st.sampled_from([None, None, None, 'all', 'some'])),
         'molname': draw(st.sampled_from(['molecule', 'molecule', 'Protein', 'mol', 'm-1', 'chain_A', 'X', '1ubq.v2', 'a.b.c', 'm.itp'])),
         'molmeta': draw(st.integers(0, len(MOLMETA) - 1)),
         'header': draw(st.lists(st.sampled_from(HEADERS), min_size=1, max_size=3)),
@@ -703,6 +704,12 @@ def produce(case, insts, mode):
     try:
         os.chdir(tmpdir)                # <moltype>.itp is written relative to the working directory
         system = build_system(case, insts)
+        if case.get('named_before'):
+            # the molecules come from systems that were named before (every one of them starts at <name>_0), or the system is
+            # named a second time after editing: names already present say nothing about the present topology
+            for idx, mol in enumerate(system.molecules):
+                if case['named_before'] == 'all' or idx % 2:
+                    mol.meta['moltype'] = '%s_0' % case['molname']
         NameMolType(deduplicate=case['deduplicate'], molname=case['molname']).run_system(system)
         if mode == 'cli-order':
             SortMoleculeAtoms().run_system(system)
